@@ -207,6 +207,9 @@ class BptkServer(Flask):
         if external_state_adapter != None:
             result = self._external_state_adapter.load_state()
             for instance_data in result:
+                if instance_data is None:
+                    # a state file that cannot be read costs that instance, not the server
+                    continue
                 self._instance_manager.reconstruct_instance(instance_data.instance_id, instance_data.timeout, instance_data.time, instance_data.state)
 
         # specifying the routes and methods of the api
@@ -290,6 +293,8 @@ class BptkServer(Flask):
         result = self._external_state_adapter.load_state()
 
         for instance_data in result:
+            if instance_data is None:
+                continue
             self._instance_manager.reconstruct_instance(instance_data.instance_id, instance_data.timeout, instance_data.time, instance_data.state)
 
         resp = make_response("Success", 200)
